@@ -74,6 +74,7 @@ def all_pairs(toks):
 
 def scalar_cmp_exec(rng, kind):
     vals = {"I": ints, "F": floats, "S": strings, "X": blobs}[kind](rng) if kind != "Y" else TYPES
+    if kind == "F": vals = list(vals) + NANS                 # (not-a-number values: above every number, equal to each other)
     L, toks = define(kind, vals)
     extra = []
     if kind == "X":                       # plain structs of other types (12 and 5 bytes): ordered among themselves, never across
